@@ -89,6 +89,7 @@ class ModuleInfo(object):
         if not external and not os.environ.get('VT_NO_NORMALIZE'):
             # behaviour-preserving normalisation of the parsed tree (see normalize.py); positions are kept
             from . import normalize
+            normalize.materialize_private_imports(self.tree, path)
             self.tree, self.inlined_calls = normalize.normalize_tree(self.tree, lambda ident: repo.mentioned_outside(ident, path))
         if external:
             self.relpath = 'site-packages/' + name.replace('.', '/') + '.py'
